@@ -9,44 +9,6 @@ import (
 	"github.com/influxdata/influxql"
 )
 
-// tokName names a token kind.  Token.String() is empty for COMMENT, BOUNDPARAM, INTEGER
-// and BADREGEX, so those are named here.
-func tokName(t influxql.Token) string {
-	switch t {
-	case influxql.COMMENT:
-		return "COMMENT"
-	case influxql.BOUNDPARAM:
-		return "BOUNDPARAM"
-	case influxql.INTEGER:
-		return "INTEGER"
-	case influxql.BADREGEX:
-		return "BADREGEX"
-	}
-	if s := t.String(); s != "" {
-		return s
-	}
-	return "TOKEN" + itoa(int(t))
-}
-
-func itoa(n int) string {
-	if n == 0 {
-		return "0"
-	}
-	neg := n < 0
-	if neg {
-		n = -n
-	}
-	var b []byte
-	for n > 0 {
-		b = append([]byte{byte('0' + n%10)}, b...)
-		n /= 10
-	}
-	if neg {
-		b = append([]byte{'-'}, b...)
-	}
-	return string(b)
-}
-
 // caseInput returns the text of a lexer case: "inp" (array of 1-rune strings), "bytes"
 // (array of byte values, for invalid UTF-8) or "text".
 func caseInput(c M) string {
